@@ -328,6 +328,9 @@ func foldWithValue(sc *scenario, e ast.Expr, val float64) (bool, bool) {
 		if tv, ok := info.Types[x]; ok && tv.Value != nil {
 			return tv.Value, true
 		}
+		if x == ast.Expr(kit.EmptyStringLit) {
+			return constant.MakeString(""), true
+		}
 		switch y := x.(type) {
 		case *ast.BinaryExpr:
 			a, ok1 := ev(y.X)
@@ -407,6 +410,9 @@ func inlineSimpleFunc(fn *kit.Func, arg constant.Value) (constant.Value, bool) {
 		}
 		if tv, ok := info.Types[x]; ok && tv.Value != nil {
 			return tv.Value, true
+		}
+		if x == ast.Expr(kit.EmptyStringLit) {
+			return constant.MakeString(""), true
 		}
 		switch y := x.(type) {
 		case *ast.BinaryExpr:
